@@ -1162,6 +1162,7 @@ def _handle_lookup_stage(in_collection, database, options):
     foreign_field = options['foreignField']
     local_name = options['as']
     foreign_collection = database.get_collection(foreign_name)
+    out_collection = []
     for doc in in_collection:
         try:
             query = helpers.get_value_by_dot(doc, local_field)
@@ -1170,9 +1171,10 @@ def _handle_lookup_stage(in_collection, database, options):
         if isinstance(query, list):
             query = {'$in': query}
         matches = foreign_collection.find({foreign_field: query})
-        doc[local_name] = [foreign_doc for foreign_doc in matches]
+        # Do not edit the input document: it may be shared with another $facet branch.
+        out_collection.append(dict(doc, **{local_name: [foreign_doc for foreign_doc in matches]}))
 
-    return in_collection
+    return out_collection
 
 
 def _recursive_get(match, nested_fields):
